@@ -56,19 +56,23 @@ func GoResult[V any](body func(*Y[V]) V) Iter[V] {
 
 func (c *coro[V]) run() {
 	defer close(c.exited)
+	returned := false // a panic whose value is nil is invisible to 'recover() != nil'
 	defer func() {
+		p := recover()
 		if c.killed {
 			return
 		}
 		// a panic in the body is re-raised in the resumer with its original value
-		if p := recover(); p != nil {
+		if p != nil || !returned {
 			c.yield <- msg[V]{k: kPanic, p: p}
 		}
 	}()
 	if _, ok := <-c.resume; !ok {
+		returned = true
 		return
 	}
 	r := c.body(&Y[V]{c})
+	returned = true
 	c.yield <- msg[V]{k: kDone, v: r}
 }
 
